@@ -287,6 +287,20 @@ def batchDone (s : State) (ob : Option Nat) : Option Code :=
 def mkEntries (pw b : Nat) (B : Batch) : List LogEntry :=
   B.msgs.map (fun m => { msg := m.msg, seq := m.seq, batch := b, ord := B.ord, pw := pw })
 
+/-- writeMessages has queued every batch that became full: no partition writer still has a full currBatch
+(checked when batchMessages releases w.mutex) -/
+def noFullAttached (cfg : Cfg) (s : State) : Bool :=
+  s.pwIds.all (fun pw =>
+    match s.pws pw with
+    | none => true
+    | some P =>
+      match P.curr with
+      | none => true
+      | some b =>
+        match s.batches b with
+        | none => true
+        | some B => !B.full cfg)
+
 /-! ### the transition function -/
 
 def stepReject (cfg : Cfg) (s : State) (c : Nat) (why : RejWhy) (i : Nat) : Option State :=
@@ -536,7 +550,7 @@ def step (cfg : Cfg) (s : State) (e : Event) : Option State :=
     match s.calls c with
     | none => none
     | some C =>
-      if s.wlock = .call c ∧ C.phase = .batching ∧ C.placedAll = true then
+      if s.wlock = .call c ∧ C.phase = .batching ∧ C.placedAll = true ∧ noFullAttached cfg s = true then
         some { s with wlock := .free, calls := upd s.calls c (some { C with phase := .batched }) }
       else none
   | .ret c r => stepRet cfg s c r
